@@ -6,6 +6,8 @@ import (
 	"encoding/json"
 	"errors"
 	"fmt"
+	"github.com/google/tink/go/keyset"
+	"github.com/hyperledger/aries-framework-go/component/kmscrypto/crypto/tinkcrypto/primitive/composite/keyio"
 	"os"
 	"runtime/debug"
 	"strings"
@@ -613,6 +615,13 @@ type WrapCall struct {
 	EPKGiven      bool
 	Alg           string
 	EPKX          []byte
+	// the dataflow of the call: the content key handed in, the recipient public key handed in, the public part of the
+	// sender key handle option, and the apu / apv of the RESULT (what the key derivation really used)
+	CEK            []byte
+	RcptX, RcptY   []byte
+	SenderX        []byte
+	OutAPU, OutAPV []byte
+	OK             bool
 }
 
 // RecCrypto wraps the real crypto service and records the key-wrap calls of the packers.
@@ -666,6 +675,17 @@ func (r *RecCrypto) CoqAttempts() string {
 	return "(Some [" + strings.Join(items, "; ") + "])"
 }
 
+// KeyByX finds the world's key with these public X bytes (nil: none).
+func (w *World) KeyByX(x []byte) *Key {
+	for _, k := range w.Keys {
+		if k.Pub != nil && len(x) > 0 && string(k.Pub.X) == string(x) {
+			return k
+		}
+	}
+
+	return nil
+}
+
 // WrapKey records and forwards.
 func (r *RecCrypto) WrapKey(cek, apu, apv []byte, recPubKey *cryptoapi.PublicKey,
 	opts ...cryptoapi.WrapKeyOpts) (*cryptoapi.RecipientWrappedKey, error) {
@@ -677,9 +697,20 @@ func (r *RecCrypto) WrapKey(cek, apu, apv []byte, recPubKey *cryptoapi.PublicKey
 	wk, err := r.Crypto.WrapKey(cek, apu, apv, recPubKey, opts...)
 
 	c := WrapCall{APU: append([]byte{}, apu...), APV: append([]byte{}, apv...), Tag: append([]byte{}, o.Tag()...),
-		HasSender: o.SenderKey() != nil, EPKGiven: o.EPK() != nil}
+		HasSender: o.SenderKey() != nil, EPKGiven: o.EPK() != nil, CEK: append([]byte{}, cek...), OK: err == nil}
+	if recPubKey != nil {
+		c.RcptX, c.RcptY = append([]byte{}, recPubKey.X...), append([]byte{}, recPubKey.Y...)
+	}
+
+	if kh, ok := o.SenderKey().(*keyset.Handle); ok && kh != nil {
+		if pk, e := keyio.ExtractPrimaryPublicKey(kh); e == nil {
+			c.SenderX = append([]byte{}, pk.X...)
+		}
+	}
+
 	if err == nil {
 		c.Alg, c.EPKX = wk.Alg, append([]byte{}, wk.EPK.X...)
+		c.OutAPU, c.OutAPV = append([]byte{}, wk.APU...), append([]byte{}, wk.APV...)
 	}
 
 	r.Wraps = append(r.Wraps, c)
